@@ -3,6 +3,7 @@ package fx
 
 import (
 	"context"
+	"crypto/sha512"
 	"crypto/x509"
 	"encoding/pem"
 	"fmt"
@@ -134,3 +135,6 @@ func DevRootPool() *x509.CertPool {
 	}
 	return pool
 }
+
+// Sha384 returns the SHA-384 digest of b.
+func Sha384(b []byte) []byte { d := sha512.Sum384(b); return d[:] }
